@@ -263,15 +263,20 @@ impl World {
 
     /// Per-object API observations through one real handle.
     fn check_object(&self, cc: &AnyCc, o: ObjId) -> bool {
-        let (want, tainted, fin_flag, wwant) = {
+        let (want, slack, tainted, fin_flag, wwant) = {
             let m = self.m.borrow();
             let ob = &m.objs[o as usize];
-            (World::count(&m, o), ob.tainted, ob.fin_flag, World::weak_count_model(&m, o))
+            (World::count(&m, o), ob.slack_strong, ob.tainted, ob.fin_flag, World::weak_count_model(&m, o))
         };
         let got = strong_count_of(cc);
-        if (tainted && got < want) || (!tainted && got != want) {
-            self.fail("O-COUNT.strong", format!("strong_count() of object {} is {} but {} Cc pointers to it exist", o, got, want));
+        let base = want - slack;
+        if (tainted && got < base) || (!tainted && got != want) {
+            self.fail("O-COUNT.strong", format!("strong_count() of object {} is {} but {} Cc pointers to it exist", o, got, base));
             return false;
+        }
+        if tainted && got != want {
+            // too high after a caught panic is the permitted leak; later limit arithmetic has to start from the real count
+            self.m.borrow_mut().objs[o as usize].slack_strong = got - base;
         }
         if HAS_WEAK {
             let wgot = with_cc!(cc, c => compat::cc_weak_count(c));
